@@ -4,6 +4,9 @@ case = {fn, t, a: [arrays {sh, v}], ia: [int lists | arrays], p: [ints], s: [str
 build(case, mode, mk) -> argument dict (mode "u": unyt inputs, "b": the stripped bare data);
 call(case, args, np)  -> result of the one call;  targets(case, args) -> in-place targets to read back."""
 
+CMP = {"isclose", "allclose", "array_equal", "array_equiv"}
+# who carries units (case["s"] of the comparison family): quantity / bare ndarray / Python list or number / dimensionless
+CARRIER_UNIT = {"q": "km", "b": None, "l": None, "d": "dimensionless"}
 PROD2 = {"dot", "vdot", "inner", "outer", "kron", "cross", "tensordot", "convolve", "correlate", "solve"}
 SECOND_S = {"trapezoid"}
 
@@ -32,7 +35,12 @@ def build(case, mode, mk):
             u = None
         if fn == "solve" and j == 1:
             d = "f"
-        arrs.append(mk(rec, d, mode, u))
+        if fn in CMP:
+            u = CARRIER_UNIT[case["s"][j]]
+        x = mk(rec, d, mode, u)
+        if fn in CMP and case["s"][j] == "l":
+            x = x.tolist()  # a Python list (0-d: a Python number) in both modes
+        arrs.append(x)
     ia = [_ia(x, np) for x in case["ia"]]
     return {"a": arrs, "ia": ia, "p": [int(x) for x in case["p"]], "s": list(case["s"])}
 
@@ -90,6 +98,11 @@ def call(case, args, np):
     if fn in ("convolve", "correlate"):
         return getattr(np, fn)(a[0], a[1], mode=s[0])
     if fn in ("union1d", "intersect1d", "setdiff1d", "setxor1d", "isin"):
+        return getattr(np, fn)(a[0], a[1])
+    if fn in ("isclose", "allclose"):
+        rt, at = p[0] / p[1], p[2] / p[3]  # dyadic: exact
+        return getattr(np, fn)(a[0], a[1], rt, at) if t == "tol" else getattr(np, fn)(a[0], a[1], atol=at, rtol=rt)
+    if fn in ("array_equal", "array_equiv"):
         return getattr(np, fn)(a[0], a[1])
     if fn == "unique":
         return np.unique(A)
